@@ -534,8 +534,11 @@ pub fn run(st: &State, t: &mut Toks) -> PResult<String> {
                         }
                     }
                     Ev::P(h, cut, gap) => {
-                        let mut ans = DiameterMessage::new(cmd_app_of(h).0, cmd_app_of(h).1, 0, h, emitted[sel], Arc::clone(&dict));
-                        ans.add_avp(268, None, M, Unsigned32::new(2001).into());
+                        // answers of every kind a peer sends: plain, protocol errors ('E' flag, Result-Code 3xxx), proxiable, re-transmitted:
+                        // to the client they are the answer to the request with that hop-by-hop id, whatever they say
+                        let afl = [0u8, 0x20, 0x40, 0x60, 0x10, 0x30][(h % 6) as usize];
+                        let mut ans = DiameterMessage::new(cmd_app_of(h).0, cmd_app_of(h).1, afl, h, emitted[sel], Arc::clone(&dict));
+                        ans.add_avp(268, None, M, Unsigned32::new(if afl & 0x20 != 0 { 3002 } else { 2001 }).into());
                         emitted[sel] += 1;
                         let mut b = Vec::new();
                         ans.encode_to(&mut b).expect("encode answer");
